@@ -141,6 +141,11 @@ def loop_candidates(entry):
                     for nm in ast.walk(t):
                         if isinstance(nm, ast.Name):
                             before.add(nm.id)
+        for sub in ast.walk(node):
+            if isinstance(sub, ast.For) and sub.lineno < lp.lineno:
+                for nm in ast.walk(sub.target):
+                    if isinstance(nm, ast.Name):
+                        before.add(nm.id)
         ints = sorted(a for a in assigned if a in before and a in ('offset', 'pos', 'position', 'index', 'idx', 'i', 'cursor', 'off', 'consumed', 'remaining', 'left', 'length'))
         bufs = entry['bufs']
         inv = []
